@@ -415,6 +415,19 @@ def run(ctx: Ctx):
             pre = [ci for ci, _ in cleanup_calls if ci < i]
             cl_suffix = cleanup_suffix(idx, m)
             ok = bool(pre) and suffix is not None and cl_suffix is not None and suffix.endswith(cl_suffix)
+            # the write itself must be unconditional: a write that is skipped when the file already exists
+            # takes over bytes from an earlier run
+            guards = [s for s, _ in c if isinstance(s, (ast.If, ast.While, ast.Try))]
+            lp_guard = None
+            for lp in loops:
+                for s2 in lp.body:
+                    if s2 is st:
+                        break
+                    if isinstance(s2, ast.If) and any(isinstance(x, (ast.Continue, ast.Break)) for x in ast.walk(s2)):
+                        lp_guard = s2
+            ctx.check(not guards and lp_guard is None, "write-unconditional", f"{plugin}:write:{ast.unparse(dest)[:40]}",
+                      "the write of an owned file is conditional (skipped for some files): content left by an earlier run "
+                      "or placed by hand survives under a name the plugin owns", rel, call.lineno)
             ctx.check(ok, "write-discipline", f"{plugin}:write:{ast.unparse(dest)[:40]}",
                       f"file names depend on the model (suffix {suffix!r}) but no cleanup() of '*{cl_suffix}' precedes the "
                       "write: files from an earlier, different model survive", rel, call.lineno,
@@ -473,6 +486,16 @@ def produced_keys(idx: Index, m: Module, fn, iter_expr):
 def cleanup_suffix(idx: Index, m: Module):
     fn = m.functions.get("cleanup")
     if fn is None:
+        return None
+    # every globbed file must be unlinked, unconditionally: the loop body is exactly `<file>.unlink()`
+    for lp in ast.walk(fn):
+        if isinstance(lp, ast.For):
+            body_ok = len(lp.body) == 1 and isinstance(lp.body[0], ast.Expr) and isinstance(lp.body[0].value, ast.Call) \
+                and isinstance(lp.body[0].value.func, ast.Attribute) and lp.body[0].value.func.attr == "unlink" \
+                and dotted(lp.body[0].value.func.value) in _targets(lp.target)
+            if not body_ok:
+                return None
+    if len(fn.args.args) != 1:
         return None
     for c in calls_in(fn):
         if isinstance(c.func, ast.Attribute) and c.func.attr in ("glob", "rglob") and c.args and \
